@@ -52,6 +52,11 @@ chk("C08", "shadowsym", "model_checking",
     "Trusted: the harness's readers of generated headers/modules/tables; z3 (strings). Identifier domain for injectivity: [a-z]([a-z0-9]*[a-z])?, length <= 8, no underscore. Three known findings are excluded and replayed on every run.",
     "symbolic execution of un_camel (shadowsym) + z3 sequence-theory injectivity queries over name templates extracted from real pipeline runs", "DESIGN.md 3/C08")
 
+chk("C10", "llsym", "translation_validation",
+    "The string helper functions exactly as Shroud emits them (ShroudStrCopy, ShroudStrBlankFill, ShroudLenTrim, ShroudStrAlloc, ShroudStrArrayAlloc/Free; language c and c++) and every generated wrapper of two string libraries (char, char*, char**, std::string by value/reference/pointer, const and not, every intent, results as +len / as argument / allocatable context; plain C API and *_bufferify) are compiled with clang -O0 to LLVM IR and executed symbolically: all lengths 0..cap (and nsrc=-1), every byte of every buffer, NULL and non-NULL sources and the library's replies are symbolic; buffers are exact-fit objects, so any read or write outside the given lengths is a bounds violation. For an arbitrary index, z3 decides that the final buffers / what the library received equal the reference rule of DESIGN.md appendix A.1. Counterexamples are replayed natively (same generated source + recording stub library + driver built from the witness, ASan/UBSan) before they are reported.",
+    "Trusted: llsym's IR semantics and its models of memcpy/memset/strlen/strcpy/strncpy/malloc/free/new/delete and std::string members; clang -O0 IR as the code under test; the stub library's contract (listed in the evidence). cap = 4 quick / 8 thorough. The Fortran side of the same rules and F_CFI descriptors are outside.",
+    "bounded symbolic execution of the LLVM IR of generated code (own engine llsym over z3 bit-vectors/arrays) against a reference model; native sanitizer replay", "DESIGN.md 3/C10")
+
 NA = {
  "C01": "generated Fortran run-time behaviour: no Fortran front end yields anything a solver can execute; C-side kernels covered under C02/C06/C10",
  "C04": "finite structural comparison of two emitted texts with a Fortran processor's interoperability rules as oracle; nothing symbolic to decide",
